@@ -100,6 +100,12 @@ func (p *idsPeer) respond(req *frame.Frame, page int, final bool) {
 	tag, _ := tagOf(req)
 	f := pageFor(p.v, req.Header.StreamId, fmt.Sprintf("%s#%d", tag, page), page, final)
 	p.responses++
+	if bodyless(p.v, tag) {
+		// a response without a body (READY: exactly one header long), alone in its segment on v5
+		p.write(frame.NewFrame(p.v, req.Header.StreamId, &message.Ready{}))
+		delete(p.outstanding, req.Header.StreamId)
+		return
+	}
 	if p.modern && p.responses%3 == 1 {
 		size := 135000 + 1777*p.responses
 		f.Body.Message.(*message.RowsResult).Data = message.RowSet{{gen.Payload(size, "text")}}
@@ -120,6 +126,9 @@ func (p *idsPeer) respond(req *frame.Frame, page int, final bool) {
 		delete(p.outstanding, req.Header.StreamId)
 	}
 }
+
+// bodyless: the second request of sender 0 is answered with READY on every non-DSE version.
+func bodyless(v primitive.ProtocolVersion, tag string) bool { return tag == "w2-0" && !dse(v) }
 
 func dse(v primitive.ProtocolVersion) bool {
 	return v == primitive.ProtocolVersionDse1 || v == primitive.ProtocolVersionDse2
@@ -176,6 +185,9 @@ func collect(r client.InFlightRequest) []string {
 			return tags
 		}
 		t, data := tagOf(f)
+		if _, isReady := f.Body.Message.(*message.Ready); isReady {
+			t = "READY"
+		}
 		if len(data) > 1 && !bytes.Equal(data, gen.Payload(len(data), "text")) {
 			t += "!corrupt" // a response reassembled from several segments must carry what the peer sent
 		}
@@ -281,6 +293,9 @@ func IdsHarness(name string, op IdsOpts, bound int) *explore.Harness {
 					}
 					got := collect(r)
 					want := []string{tag + "#1"}
+					if bodyless(op.V, tag) {
+						want = []string{"READY"}
+					}
 					if op.Pages > 1 && dse(op.V) && wave == 1 && i == perm[0] {
 						want = nil
 						for pg := 1; pg <= op.Pages; pg++ {
@@ -390,7 +405,11 @@ func ExhaustionHarness(name string, v primitive.ProtocolVersion, n int, bound in
 				}
 				got := collect(r)
 				received++
-				if strings.Join(got, ",") != tag+"#1" {
+				wantTag := tag + "#1"
+				if bodyless(v, tag) {
+					wantTag = "READY"
+				}
+				if strings.Join(got, ",") != wantTag {
 					o.Fail("C10:misdelivery", "inFlightRequestsHandler.onIncomingFrameReceived", "request %s (stream id %d) received %v (err=%v)", tag, r.StreamId(), got, r.Err())
 				}
 				o.Logf("%s id=%d", tag, r.StreamId())
